@@ -165,6 +165,64 @@ def check(prog, rep):
                        f"reads {recv}.{n.attr} under `isinstance({recv}, Parameter)` while the artefact is being built: the parameter's value at that moment is what the result keeps, later Parameter.set() calls are ignored",
                        loc=loc, detail="eager-read", robust=True)
                 continue
+            # the receiver is an element handed out by a generator / helper call (`for factor, f in self._pairs():`): what
+            # kinds it yields is decided there
+            root_ = recv.split(".")[0].split("[")[0]
+            from_call = False
+            for lp_ in ast.walk(fi.node):
+                it_ = lp_.iter if isinstance(lp_, (ast.For, ast.comprehension)) else None
+                if it_ is not None and any(isinstance(x_, ast.Name) and x_.id == root_ for x_ in ast.walk(lp_.target)):
+                    for c_ in ast.walk(it_):
+                        if isinstance(c_, ast.Call) and (dotted(c_.func) or "") not in ("enumerate", "zip", "range", "reversed", "sorted", "list", "tuple", "iter"):
+                            from_call = True
+            if from_call and recv == root_:
+                rep.undecided(f"{construct}: {recv} is yielded by a call in the loop header; which kinds that call hands out is not followed")
+                continue
+            # the receiver is handed in by the caller: the kind test may sit at the call site (or in the annotation)
+            prm_ = next((a_ for a_ in fi.node.args.args + fi.node.args.kwonlyargs if a_.arg == root_), None)
+            if prm_ is not None and root_ not in ("self", "cls") and root_ not in assigns and recv == root_:
+                ann_ = ast.unparse(prm_.annotation) if prm_.annotation is not None else ""
+                if "Constant" in ann_ and "Parameter" not in ann_ and "Expression" not in ann_:
+                    rep.ob("R12.1", construct, True, f"{recv} is declared a Constant ({ann_})", loc=loc, detail="constant-typed", robust=True)
+                else:
+                    # look at the call sites: every one under isinstance(<argument>, Constant) -> fine; one that passes an
+                    # expression nobody tested -> that is the eager read
+                    from ..inline import call_sites, bind_args
+                    sites = [(c_fi, c_) for c_fi, c_ in call_sites(prog, fi, "optyx") if c_fi is not fi]
+                    verdicts = []
+                    for c_fi, c_ in sites:
+                        try:
+                            arg_ = bind_args(fi.node, c_).get(root_)
+                        except Exception:
+                            arg_ = None
+                        if arg_ is None and fi.cls is not None and isinstance(c_.func, ast.Attribute):
+                            # bound method: parameters shift by one
+                            ps_ = [a_.arg for a_ in fi.node.args.args][1:]
+                            arg_ = c_.args[ps_.index(root_)] if root_ in ps_ and ps_.index(root_) < len(c_.args) else next((k_.value for k_ in c_.keywords if k_.arg == root_), None)
+                        if arg_ is None:
+                            verdicts.append(None)
+                            continue
+                        c_asg = local_assignments(c_fi.node)
+                        if isinstance(arg_, ast.Call) and dotted(arg_.func) == "Constant":
+                            verdicts.append(True)
+                        elif implied_constant(c_, src(arg_), c_asg):
+                            verdicts.append(True)
+                        elif _guard_evidence(c_fi, c_, src(arg_), c_asg) == "none" and not isinstance(arg_, ast.Call):
+                            verdicts.append((c_fi, c_, arg_))
+                        else:
+                            verdicts.append(None)
+                    bad_ = [v_ for v_ in verdicts if isinstance(v_, tuple)]
+                    if sites and all(v_ is True for v_ in verdicts):
+                        rep.ob("R12.1", construct, True, f"every call site passes a node tested with isinstance(.., Constant) ({len(sites)} site(s))", loc=loc, detail="constant-at-call-sites", robust=True)
+                    elif bad_:
+                        c_fi, c_, arg_ = bad_[0]
+                        rep.ob("R12.1", construct, False,
+                               f"reads {recv}.{n.attr} with no kind test, and {c_fi.qual.split(':')[1]} ({c_fi.module.rel}:{c_.lineno}) passes `{src(arg_)[:40]}`, which nothing there establishes to be a Constant: "
+                               f"a Parameter has a .value too, so its current value is folded into the built artefact and later Parameter.set() calls are ignored",
+                               loc=loc, detail="eager-read", robust=True)
+                    else:
+                        rep.undecided(f"{construct}: {recv} is a parameter of {fi.name}; whether callers only pass Constant nodes is not decided here")
+                continue
             verdict = _guard_evidence(fi, n, recv, assigns)
             if verdict == "unknown":
                 rep.undecided(f"{construct}: {recv} is tested with isinstance(.., Constant) / by a predicate in this function, but the test does not dominate the read in a way this rule can follow (loop-else, flag, helper): not decided")
